@@ -93,7 +93,7 @@ class Lay:
             if self.rng.random() < 0.15:
                 # a comment at the end of a non-final continuation line (with brackets in it), a blank or comment-only line inside the brackets
                 nlc = self.rng.choice(['  # c (\n', ' # note )\n', '\n\n', '\n   \n', '\n  # note\n', '\n#(\n'])
-            out = out + nlc + self.rng.choice(['    ', '\t', ' '])
+            out = out + nlc + self.rng.choice(['    ', '\t', ' ', '', ''])        # also continuation lines that start in column 0
         return out
 
     def free(self):
@@ -102,7 +102,7 @@ class Lay:
         if self.on('paren', 0.4):
             out = self.rng.choice([' ', '  ', '\t'])
         if self.depth > 0 and self.on('cont', 0.1):
-            out += '\n  '
+            out += self.rng.choice(['\n  ', '\n', '\n\t'])
         return out
 
     def index(self, idx, lhs=False):
@@ -115,13 +115,16 @@ class Lay:
                 body = rng.choice(['+0', '-0', '00', '0_0'])         # other spellings int() reads as 0
         else:
             body = idx
+        if 'isb' in self.feats and not lhs and isinstance(idx, int) and idx != 0 and body[0] in '+-':
+            body = body[0] + ' ' + body[1:]          # a blank between the sign and the digits
+            self.flags.add('index-sign-blank')
         if self.on('inner', 0.5):
             if lhs:
                 if 'lhsinner' in self.feats:
                     body = ' ' + body + ' '
                     self.flags.add('lhs-index-inner-space')
             else:
-                body = rng.choice([' ', '  ']) + body + rng.choice([' ', '', '\t'])
+                body = rng.choice([' ', '  ', '\t', '\t ']) + body + rng.choice([' ', '', '\t'])
         elif lhs and 'lhsinner' in self.feats:
             body = ' ' + body + ' '
             self.flags.add('lhs-index-inner-space')
@@ -132,7 +135,7 @@ class Lay:
         return pre + '[' + body + ']'
 
     def var(self, kind, nm, idx, lhs=False):
-        sp = (lambda: self.rng.choice(['', ' ', '  '])) if self.on('inner', 0.6) else (lambda: '')
+        sp = (lambda: self.rng.choice(['', ' ', '  ', '\t', ' \t'])) if self.on('inner', 0.6) else (lambda: '')
         if kind == 'p':
             base = '{' + sp() + nm + sp() + '}'
         elif kind == 'e':
@@ -162,7 +165,11 @@ class Lay:
         if k == 'call':
             self.depth += 1
             inner = (',' + self.gap()).join(self.expr(a) for a in t[2])
-            s = t[1] + (self.rng.choice([' ', ' ', '\t', '  ', ' \t']) if self.on('call', 0.4) else '') + '(' + self.free() + inner + self.free() + ')'
+            fname = t[1]
+            if 'dot' in self.feats and '.' in fname:
+                fname = fname.replace('.', self.rng.choice([' .', '. ', ' . ']), 1)        # a blank next to the dot of np.sqrt
+                self.flags.add('dotted-name-blank')
+            s = fname + (self.rng.choice([' ', ' ', '\t', '  ', ' \t']) if self.on('call', 0.4) else '') + '(' + self.free() + inner + self.free() + ')'
             self.depth -= 1
             return s
         if k == 'if':
@@ -195,6 +202,13 @@ class Lay:
             pre = ' '
             self.flags.add('space-before-lhs-index')
         lhs = y + ((pre + self.lhs_index(ly)) if show else '')
+        if 'ffo' in self.feats:
+            # a form feed / other line boundary of str.splitlines OUTSIDE round brackets (it is whitespace for the regexes)
+            self.flags.add('linesep-outside-brackets')
+            return lhs + ' =' + self.rng.choice(['\x0c', '\x1d ', ' \x85', '\x0c ']) + self.expr(tree)
+        if 'bra' in self.feats:
+            self.flags.add('bracketed-statement')          # the layout documented with equation_re: brackets beginning on the left-hand side
+            return '(' + lhs + ' =' + self.rng.choice(['\n ', '\n', ' ']) + self.expr(tree) + ')'
         return lhs + self.gap() + '=' + self.gap() + self.expr(tree)
 
 
@@ -253,6 +267,17 @@ FIXED = [
     {'k': 's', 's': 'Y = {{1: X}}[1] + Z'},
     {'k': 'meta', 'stmts': ['Y[1] = X'], 'var': 'Y [1] = X', 'strict': False, 'feats': ['sbl'], 'flags': ['space-before-lhs-index'], 'perm': None, 'skipfix': []},
     {'k': 'hashq', 'stmts': ["Y = X['a_b']"], 'var': "Y = X['a#b']"},
+    # second review
+    {'k': 'meta', 'stmts': ['Y = X[-1]'], 'var': 'Y = X[- 1]', 'strict': False, 'feats': ['isb'], 'flags': ['index-sign-blank'], 'perm': None, 'skipfix': []},
+    {'k': 'meta', 'stmts': ['Y = X[1]'], 'var': 'Y = X[+ 1]', 'strict': False, 'feats': ['isb'], 'flags': ['index-sign-blank'], 'perm': None, 'skipfix': []},
+    {'k': 'meta', 'stmts': ['Y = np.sqrt(X)'], 'var': 'Y = np .sqrt(X)', 'strict': False, 'feats': ['dot'], 'flags': ['dotted-name-blank'], 'perm': None, 'skipfix': []},
+    {'k': 'meta', 'stmts': ['Y = X ', 'Y = X '], 'var': 'Y = X \nY = X # c', 'strict': False, 'feats': ['comment'], 'flags': ['duplicate-respaced'], 'perm': None, 'skipfix': []},
+    {'k': 'meta', 'stmts': ['Y = max(X, Z)', 'Y = max(X, Z)'], 'var': 'Y = max(X, Z)\nY = max (X,Z)', 'strict': False, 'feats': ['call'], 'flags': ['duplicate-respaced'], 'perm': None, 'skipfix': []},
+    {'k': 'meta', 'stmts': ['Y = X * Z'], 'var': 'Y = X *\x0c Z', 'strict': False, 'feats': ['ffo'], 'flags': ['linesep-outside-brackets'], 'perm': None, 'skipfix': []},
+    {'k': 'meta', 'stmts': ['Y = X'], 'var': '(Y =\n X)', 'strict': False, 'feats': ['bra'], 'flags': ['bracketed-statement'], 'perm': None, 'skipfix': []},
+    # edits nobody noticed: '\n'.join(buffer) -> ''.join ; \s* -> [ ]* inside { } < > and after [
+    {'k': 'meta', 'stmts': ['Y = (X if Z else W)'], 'var': 'Y = (X if\nZ else W)', 'strict': False, 'feats': ['cont'], 'flags': [], 'perm': None, 'skipfix': []},
+    {'k': 'meta', 'stmts': ['Y = {a} * X["a"] + <e>'], 'var': 'Y = {\ta} * X[\t"a"] + <\te\t>', 'strict': False, 'feats': ['inner'], 'flags': [], 'perm': None, 'skipfix': []},
     {'k': 'hashq', 'stmts': ['Y = `"_"` * X'], 'var': 'Y = `"#"` * X'},
     {'k': 'hashq', 'stmts': ['```\nx = "_tag"\n```\nY = X'], 'var': '```\nx = "#tag"\n```\nY = X'},
     # changes nobody noticed: brackets counted before comments are stripped; blank lines dropped before the continuation logic; \s* -> " *" after a function name
@@ -297,6 +322,17 @@ def gen(rng, tier):
         if ' = ' in s0:
             dup = rng.choice([s0.replace(' = ', '=', 1), s0.replace(' = ', '= ', 1), s0.replace(' = ', ' =', 1), s0.replace(' = ', '  =  ', 1)])
             fl = [] if dup.replace(' ', '') == s0.replace(' ', '') and '  =  ' in dup else ['duplicate-respaced']
+            cases.append({'k': 'meta', 'stmts': c['stmts'] + [s0], 'var': '\n'.join(c['stmts'] + [dup]), 'strict': False, 'feats': ['ws'], 'flags': fl,
+                          'perm': None, 'skipfix': c['skipfix']})
+        cases.append(gen_meta(rng, ['isb', 'sign'] + rng.sample(FEATS, 1), strict=True))
+        cases.append(gen_meta(rng, ['dot', 'call'], strict=True))
+        cases.append(gen_meta(rng, [rng.choice(['ffo', 'bra'])], strict=True))
+        # the same statement twice, one copy with a trailing comment / re-spaced after a comma or before "("
+        c = gen_meta(rng, [], strict=True)
+        s0 = c['stmts'][0]
+        dup = rng.choice([s0 + '  # c', s0 + ' ', s0.replace(', ', ',', 1), s0.replace('(', ' (', 1), s0.replace(' + ', '+', 1), s0.replace(' * ', '  *  ', 1)])
+        if dup != s0:
+            fl = ['duplicate-respaced'] if re.sub(r' +', ' ', dup).replace('( ', '(') != s0 else []
             cases.append({'k': 'meta', 'stmts': c['stmts'] + [s0], 'var': '\n'.join(c['stmts'] + [dup]), 'strict': False, 'feats': ['ws'], 'flags': fl,
                           'perm': None, 'skipfix': c['skipfix']})
         a, b = rng.choice(G.NUMS), rng.choice(G.NUMS)
@@ -538,14 +574,38 @@ def merge_reference(parsed):
 _MASKS = (('space-before-index', ('layout-code-meaning', 'layout-symbols', 'layout-outcome')),
           ('lhs-index-inner-space', ('layout-outcome',)),
           ('space-before-lhs-index', ('layout-outcome',)),
-          ('duplicate-respaced', ('layout-outcome',)))
+          ('duplicate-respaced', ('layout-outcome',)),
+          ('index-sign-blank', ('layout-outcome',)),
+          ('dotted-name-blank', ('layout-symbols', 'layout-code-meaning')),
+          ('linesep-outside-brackets', ('layout-outcome',)),
+          ('bracketed-statement', ('layout-outcome',)))
 import keyword as _keyword
 _KWNAME = re.compile(r'(?<![A-Za-z0-9_.])(?:%s)\[' % '|'.join(_keyword.kwlist))
+
+
+_RESERVED_IN = re.compile(r'[{<]\s*(?:%s)\s*[}>]' % '|'.join(_keyword.kwlist))
+
+
+def input_shapes(case):
+    """classes of the three fixed-point findings, read off the INPUT text (as the layout classes are read off the renderer's flags)"""
+    text = case.get('s', case.get('var', '')) if case['k'] == 's' else '\n'.join(case.get('stmts', [])) + '\n' + case.get('var', '')
+    bare = re.sub(r'`[^`\n]*`', '', text)
+    out = set()
+    if '{{' in bare or '}}' in bare:
+        out.add('literal-braces')                   # str.format's escape for a literal brace
+    if _RESERVED_IN.search(bare):
+        out.add('reserved-word-name')               # a reserved word as the name of a parameter / error term
+    for line in bare.splitlines():
+        i = line.find('=')
+        if i >= 0 and line[:i].count('[') > line[:i].count(']'):
+            out.add('equation-without-equals')      # the first "=" of a statement stands inside an index bracket
+    return out
 
 
 def oracle(case, obs):
     fails = []
     flags = set(case.get('flags', []))
+    shapes = input_shapes(case)
 
     def add(clause, what):
         sig = clause
@@ -612,18 +672,21 @@ def oracle(case, obs):
                         add('layout-code-meaning', 'the generated code differs in meaning: %r vs %r' % (eb[k][1], ev[k][1]))
     # ---- the normal form is a fixed point
     for ent in obs.get('fix', []):
-        if '=' not in ent['eq']:
+        if '=' not in ent['eq'] and 'equation-without-equals' in shapes:
             fails.append({'sig': 'C14|fixed-point|equation-without-equals',
                           'what': 'the parser produced the normalised equation %r without "=" (an index bracket spanning the "=" of the statement); '
                                   'fed back it is rejected — script %s' % (ent['eq'], json.dumps(case.get('s', ''))[:120])})
             continue
-        if 'exc' in ent and re.search(r'[{}]', re.sub(r'`[^`]*`|\'[^\']*\'|"[^"]*"', '', ent['eq'])):
+        if '=' not in ent['eq']:
+            add('fixed-point', 'the parser produced the normalised equation %r without "="' % ent['eq'])
+            continue
+        if 'exc' in ent and 'literal-braces' in shapes and re.search(r'[{}]', re.sub(r'`[^`]*`|\'[^\']*\'|"[^"]*"', '', ent['eq'])):
             # literal braces written {{ }} in the script: the normal form holds single braces, which are format fields when read back
             fails.append({'sig': 'C14|fixed-point|literal-braces',
                           'what': 'the normalised equation %r contains a literal brace (written doubled in the script); fed back as %r it is rejected with %s'
                                   % (ent['eq'], ent['fed'], ent['exc'])})
             continue
-        if ent.get('exc') == 'ParserError' and _KWNAME.search(re.sub(r'`[^`]*`', '', ent['eq'])):
+        if 'exc' in ent and 'reserved-word-name' in shapes and _KWNAME.search(re.sub(r'`[^`]*`', '', ent['eq'])):
             # a {parameter} / <error> named like a reserved word: its normal form NAME[t] is read as _INVALID by term_re
             fails.append({'sig': 'C14|fixed-point|reserved-word-name',
                           'what': 'the normalised equation %r contains a term named like a reserved word of Python (written in braces / angle '
